@@ -2,9 +2,12 @@
 
 from __future__ import annotations
 
+import base64
 import copy
 import os
 import re
+import subprocess
+import sys
 import xml.etree.ElementTree as ET
 
 from hypothesis import strategies as st
@@ -520,6 +523,192 @@ def _one_mutant(case, k, mut, orig, d, out):
 
 
 # ---------------------------------------------------------------------------
+# raw bytes: the implication form of the same oracle (atheris campaign, DESIGN 3.11)
+
+class DbOnce:
+    """A fresh database per file (harness / replay mode)."""
+
+    def get(self, workdir):
+        db = _prepare_db('unrelated', workdir)
+        return db, dumps.raw_dump(db.file)
+
+    def spoiled(self):
+        pass
+
+
+class DbKeep:
+    """One database for a whole campaign (every file must leave it unchanged);
+    rebuilt after a file that changed it."""
+
+    def __init__(self):
+        self.db = None
+        self.before = None
+
+    def get(self, workdir):
+        if self.db is None:
+            self.db = _prepare_db('unrelated', workdir)
+            self.before = dumps.raw_dump(self.db.file)
+        return self.db, self.before
+
+    def spoiled(self):
+        self.db = None
+
+
+class _Bytes:
+    cls, kind, what, header = 'bytes', '', 'arbitrary bytes', None
+
+
+def check_bytes(data: bytes, workdir, dbs, case=None) -> list:
+    """load accepts => is_lmf and scan_lexicons agrees; load rejects => add rejects
+    and the database is unchanged; is_lmf false => load rejects; nothing else."""
+    import wn
+    import wn.lmf as lmf
+    f = workdir / 'bytes.xml'
+    f.write_bytes(data)
+    out: list[Disc] = []
+    try:
+        is_lmf = lmf.is_lmf(f)
+    except Exception as exc:  # noqa: BLE001
+        out.append(Disc('is_lmf-raises', 'bytes', 'True or False', _exc(exc)))
+        is_lmf = None
+    try:
+        loaded = lmf.load(f, progress_handler=None)
+    except Exception as exc:  # noqa: BLE001
+        loaded = None
+        if case is not None:
+            _note_outcome(case, 'load-raises:' + type(exc).__name__)
+    if loaded is not None:
+        if case is not None:
+            _note_outcome(case, 'load-returns')
+        if is_lmf is False:
+            out.append(Disc('is_lmf-false-but-load-accepts', 'bytes', True, False))
+        try:
+            scan = lmf.scan_lexicons(f)
+        except Exception as exc:  # noqa: BLE001
+            out.append(Disc('scan-raises-on-accepted-file', 'bytes', _proj(loaded), _exc(exc)))
+        else:
+            _compare_scan(scan, loaded, 'bytes', out)
+        return out
+    # rejected by load
+    db, before = dbs.get(workdir)
+    raised = None
+    try:
+        wn.add(f, progress_handler=None)
+    except Exception as exc:  # noqa: BLE001
+        raised = exc
+    after = dumps.raw_dump(db.file)
+    if case is not None:
+        _note_outcome(case, 'add-raises:' + type(raised).__name__ if raised is not None
+                      else 'add-returns')
+    if raised is None:
+        try:
+            infos = lmf.scan_lexicons(f)
+        except Exception as exc:  # noqa: BLE001
+            infos, scan = None, _exc(exc)
+        else:
+            scan = [(i.get('id'), i.get('version'), bool(i.get('extends'))) for i in infos]
+        if not (infos and all(i.get('extends') for i in infos)):
+            kind = ('invalid-file-ignored-by-add:no-lexicon-found' if infos == []
+                    else 'invalid-file-accepted-by-add')
+            out.append(Disc(kind, 'bytes', 'exception', 'returned normally',
+                            note=f'scan_lexicons: {scan!r}'[:300]))
+    changes = diff(before, after)
+    if changes:
+        dbs.spoiled()
+    for p, e, g in changes[:5]:
+        out.append(Disc('invalid-file-changed-database', f'bytes{p}', e, g))
+    return out
+
+
+def bytes_oracle(case):
+    if case.get('origin') == 'atheris-unavailable':
+        return []
+    data = base64.b64decode(case['b64'])
+    return check_bytes(data, env.new_dir('c20b'), DbOnce(), case)
+
+
+def _classify_bytes(case):
+    tags = ['origin:' + case.get('origin', '?')] + _take_outcome(case)
+    return case.get('origin') not in ('valid', 'atheris-unavailable'), sorted(set(tags))
+
+
+FUZZ_DICT = [
+    '<?xml version="1.0" encoding="UTF-8"?>', '<!DOCTYPE LexicalResource SYSTEM "',
+    'http://globalwordnet.github.io/schemas/WN-LMF-1.0.dtd',
+    'http://globalwordnet.github.io/schemas/WN-LMF-1.1.dtd',
+    'http://globalwordnet.github.io/schemas/WN-LMF-1.3.dtd', 'WN-LMF-1.4.dtd',
+    '<![CDATA[', ']]>', '<!--', '-->', '<?', '?>', '</', '/>', '&amp;', '&lt;', '&gt;',
+    '&quot;', '&apos;', '&#x', '&#', ';', ' id="', ' version="', ' label="', " id='",
+    ' synset="', ' target="', ' relType="', ' ili="', ' xmlns:dc="', ' dc:', ' xml:space="',
+] + ['<' + t for t in sorted(lmfmut.ALL_ELEMS)] + ['</' + t + '>' for t in sorted(lmfmut.ALL_ELEMS)]
+
+
+def _byte_variants(data: bytes, k: int):
+    """A few deterministic byte-level edits (smoke test of the bytes oracle)."""
+    n = len(data)
+    p = (k * 7919) % max(1, n)
+    yield data[:p] + data[p + 1:]
+    yield data[:p] + b'&' + data[p:]
+    yield data[:p] + b'<' + data[p:]
+    yield data[:p] + bytes([data[p] ^ 0x20]) + data[p + 1:]
+    yield data[:p] + b'\xff' + data[p:]
+    yield data + data[-40:]
+    yield data.replace(b'"', b"'", 3)
+
+
+def _enumerate_bytes(tier, shard, nshards):
+    vs = int(os.environ.get('VERIF_SEED', '1') or 1)
+    ndocs = 3 if tier == 'quick' else 12
+    pairs = _collect(st.tuples(_documents(_SMALL, max_lexicons=2), xmlw.styles()),
+                     ndocs + 3, vs * 104729 + shard * 37 + 5)[3:]
+    seeds = [lmfmut.valid_bytes(res, style) for res, style in pairs]
+
+    def case(data, origin):
+        return {'b64': base64.b64encode(data).decode('ascii'), 'origin': origin}
+    for j, data in enumerate(seeds):
+        yield case(data, 'valid')
+        for v in _byte_variants(data, j + shard + vs):
+            yield case(v, 'byte-edit')
+    if tier != 'thorough':
+        return
+    # coverage-guided campaign in a subprocess (same oracle: check_bytes)
+    seconds = int(os.environ.get('C20_FUZZ_SECONDS', '60'))
+    work = env.new_dir('c20fuzz')
+    corpus, findings = work / 'corpus', work / 'findings'
+    corpus.mkdir()
+    findings.mkdir()
+    for j, data in enumerate(seeds):
+        (corpus / f'seed{j}.xml').write_bytes(data)
+    (work / 'xml.dict').write_text(
+        ''.join('"' + ''.join(f'\\x{b:02x}' for b in t.encode()) + '"\n' for t in FUZZ_DICT))
+    e = dict(os.environ)
+    deps = str(env.VERIF_ROOT / '.deps')
+    e['PYTHONPATH'] = os.pathsep.join(
+        [x for x in (e.get('PYTHONPATH', ''), str(env.VERIF_ROOT), deps) if x])
+    cmd = [sys.executable, '-m', 'wnv.fuzz_c20', '--seconds', str(seconds),
+           '--corpus', str(corpus), '--findings', str(findings),
+           '--dict', str(work / 'xml.dict'), '--seed', str(vs * 1000 + shard)]
+    try:
+        p = subprocess.run(cmd, env=e, cwd=str(env.VERIF_ROOT), capture_output=True, text=True,
+                           timeout=seconds + 120)
+        rc, tail = p.returncode, (p.stdout + p.stderr)[-1500:]
+    except subprocess.TimeoutExpired:
+        rc, tail = -9, 'fuzzer subprocess timed out'
+    if rc == 3:
+        print('C20: atheris unavailable - byte-level campaign skipped', file=sys.stderr)
+        yield {'b64': '', 'origin': 'atheris-unavailable'}
+        return
+    if rc != 0:
+        raise env.HarnessError(f'fuzz_c20 exited {rc}: {tail}')
+    # read everything now: the harness purges the scratch area between cases
+    later = [case(fnd.read_bytes(), 'atheris-finding') for fnd in sorted(findings.glob('*.bin'))]
+    grown = sorted(p for p in corpus.iterdir() if p.is_file())
+    later += [case(fcor.read_bytes(), 'atheris-corpus')
+              for fcor in grown[:: max(1, len(grown) // 150)]]
+    yield from later
+
+
+# ---------------------------------------------------------------------------
 # classification
 
 def _scanned_strings(res):
@@ -633,4 +822,10 @@ SUBS = [
                         'all header classes and arguments',
         fingerprint=_fp, sample=_sample,
         require_tags=_REQUIRED_CLASSES),
+    Sub('bytes', bytes_oracle, _classify_bytes, enumerate=_enumerate_bytes,
+        exhaustive_note='valid documents and deterministic byte edits; thorough tier: an atheris '
+                        '(libFuzzer) campaign per shard seeded with them and an XML token '
+                        'dictionary, its findings and a sample of its corpus re-checked in '
+                        'process; records "atheris-unavailable" if atheris cannot be imported',
+        sample=lambda c: {'origin': c.get('origin'), 'bytes': len(c.get('b64', '')) * 3 // 4}),
 ]
